@@ -64,12 +64,15 @@ def seeded_table() -> str:
         rows.append(f"| {sid} | {what} | {needs} | "
                     f"{', '.join(dets) if dets else '**not detected**'} | "
                     f"{hist or 'detected'} |")
-    head = (f"{n} seeded changes (two rounds, two per property and round); "
-            f"{det} are detected by the check of their own property at the "
-            f"quick tier with the final machinery; {missed_first} were missed "
-            f"(or only caught by another property's check, or hung the check) "
-            f"when first evaluated and led to the strengthening named in the "
-            f"last column.\n\n")
+    undet = sum(1 for v in desc.values() if v[2].startswith("NOT DETECTED"))
+    head = (f"{n} seeded changes (three rounds: two per property in rounds 1 "
+            f"and 2, two each for the 15 properties with a round-2 miss in "
+            f"round 3); {det} are detected by the check of their own "
+            f"property at the quick tier with the final machinery; "
+            f"{missed_first - undet} were missed (or only caught by another "
+            f"property's check, or hung the check) when first evaluated and "
+            f"led to the strengthening named in the last column; {undet} "
+            f"stay undetected for the reason given there.\n\n")
     return head + "\n".join(rows)
 
 
